@@ -60,7 +60,7 @@ SumFrom(c, k) == IF k > Len(c) THEN 0 ELSE c[k] * k + SumFrom(c, k + 1)
 PartOf(c) == (SumFrom(c, 2) % NParts) + 1
 
 VARIABLES part, ch, ok
-vars == <<part, ch, ok, i, out>>
+vars == <<part, ch, ok, gen_i, gen_out>>
 \* ---- the properties (evaluated inside the action: TLC caches LET values there)
 CascCheck(c) == Bind(CascSheet(c), LAMBDA sh :
                 Bind(SheetInfo(sh), LAMBDA info :
@@ -70,11 +70,11 @@ NestCheck(c) == NestEquiv(NestLists(c))
 ShortCheck(c) == WFDecl(ShortDecl(c)) /\ ShorthandLaw(ShortDecl(c))
 FamCheck(c) == CASE c[1] = "casc" -> CascCheck(c) [] c[1] = "nest" -> NestCheck(c) [] c[1] = "short" -> ShortCheck(c)
 
-MCInit == part \in 1..NParts /\ ch = <<>> /\ ok = TRUE /\ i = 0 /\ out = FALSE
+MCInit == part \in 1..NParts /\ ch = <<>> /\ ok = TRUE /\ gen_i = 0 /\ gen_out = FALSE
 MCNext == /\ ch = <<>>
           /\ ch' \in {c \in FamChoices(0) : PartOf(c) = part}
           /\ ok' = FamCheck(ch')
-          /\ part' = part /\ UNCHANGED <<i, out>>
+          /\ part' = part /\ UNCHANGED <<gen_i, gen_out>>
           /\ (Export /\ ch'[1] = "casc") => PrintT(<<"CASE", ToJson(Bind(CascSheet(ch'), LAMBDA sh : CaseOf(ch', sh) @@ [items |-> sh]))>>)
 MCSpec == MCInit /\ [][MCNext]_vars
 \* WinnerUnique + LayerOrderTotal (casc), NestEquiv (nest), ShorthandLaw (short) hold for every enumerated member
